@@ -397,6 +397,9 @@ h("kd10_params_leaving_level0_settles_the_hash_debt", D + "/kd10_entry.rs", "def
   functions=["deflate::params (hash-table bookkeeping at a level change)", "lm_set_level"],
   bounds="first call after init/reset (no flush precedes the switch); any current level, any new level 0..=9, matches in 0..=2, one dirty hash entry at a fixed index",
   assumptions=["slide_hash -> counting stub (decided by kd9_slide_hash_chain)", "<[u16]>::fill -> zeroing stub"])
+h("kd10_get_dictionary_is_the_window_tail", D + "/kd10_entry.rs", "deflate::verif_kani::kd10_entry", ["C16", "C13"], kernel="KD10", expect_s=30, timeout=900,
+  functions=["deflate::get_dictionary"], bounds="w_size 16 (32 symbolic window bytes), any strstart and look-ahead with strstart + lookahead <= 32, canaried 16-byte buffer or NULL",
+  assumptions=["rule transcribed from zlib-ng's deflateGetDictionary"])
 h("kd10_params_tune", E, EP, ["C06", "C16"], kernel="KD10", expect_s=60, timeout=900,
   functions=["deflate::params", "deflate::tune", "lm_set_level", "DeflateStream::pending"],
   bounds="every i32 level, 5 strategies, any previous level 0..=9, any last_flush/matches; tune with four arbitrary usize values",
@@ -608,6 +611,11 @@ for _s, _r, _f in ((16, 5, 8), (17, 7, 12), (18, 20, 24)):
       assumptions=CODELENS_ASSUME)
 
 # ---------------------------------------------------------------- inflate: KI6 fast loop
+h("ki6_fast_loop_walks_the_window_ring", I + "/ki6_fast.rs", "inflate::verif_kani::ki6_fast", ["C04", "C02"], kernel="KI6", expect_s=300, timeout=1500, weight=3, mem_gb=20,
+  functions=["inflate::inflate_fast_help_impl::<NONE> (one 'outer iteration): choice of the window ranges a match is served from"],
+  bounds="15 symbolic input bytes, 262 bytes of output room, fixed tables, window 8 that has wrapped (full, write head anywhere)",
+  unwindset=[("inflate_fast_help_impl", None, 3)],
+  assumptions=["inflate_table stubbed (fixed tables only)", "copy primitives -> contract stubs as in ki6_fast_loop_room; extend_from_window additionally records the ranges it is asked for"])
 h("ki6_fast_loop_room", I + "/ki6_fast.rs", "inflate::verif_kani::ki6_fast", ["C02"], kernel="KI6", expect_s=300, timeout=2400, weight=3, mem_gb=20,
   functions=["inflate::inflate_fast_help_impl::<NONE> (one 'outer iteration)", "BitReader::refill", "BitReader::return_unused_bytes", "Writer::push",
              "inffixed_tbl::{LENFIX,DISTFIX}"],
@@ -720,7 +728,7 @@ QUICK = {
     "C03": ["ki5b_fixed_part", "ki5c_codelens_16_exact", "ki5c_codelens_17_exact", "ki5c_codelens_18_exact", "ki5c_codelens_18_over", "ki5d_match_guard_dispatch", "ki5d_match_guard_friends", "ki5a_head_w1_n2", "ki5a_head_w3_n2", "ki5a_head_w2_n2", "ki5a_dictid_n4", "ki5c_typedo_b3_i0", "ki5c_typedo_b7_i0", "ki5c_stored", "ki5c_table",
             "ki5c_lenlens_order", "ki5d_len_step", "ki5d_dist_step_friends", "ki5d_fixed_tables_are_rfc", "ki5e_check_zlib",
             "ki5e_length_gzip", "ki5b_hcrc"],
-    "C04": ["ki5d_dist_long_code_dispatch", "ki1_bitreader_split", "ki5c_copyblock_resume", "ki5c_stored_trees", "ki5d_match_guard_dispatch", "ki5c_codelens_17_suspend", "ki5c_lenlens_order", "ki5b_extra", "ki5d_dist_step_friends",
+    "C04": ["ki6_fast_loop_walks_the_window_ring", "ki5d_dist_long_code_dispatch", "ki1_bitreader_split", "ki5c_copyblock_resume", "ki5c_stored_trees", "ki5d_match_guard_dispatch", "ki5c_codelens_17_suspend", "ki5c_lenlens_order", "ki5b_extra", "ki5d_dist_step_friends",
             "ki7_inflate_copyblock", "ki3_window_extend_ring", "ki5c_typedo_b2_i0"],
     "C05": ["kd3_compress_block_general_two_symbols", "kd4_build_bl_tree_announces_every_used_length", "kd6_stored_pending_block_fits_len16", "kd4_gen_codes_n5", "kd4_build_tree_bl_k2", "kd4_build_tree_bl_k3", "kd4_build_tree_bl_single", "kd5_send_tree_n4", "kd5_send_tree_z11_n13", "kd1_bitwriter_pack", "kd1_emitters_one_step", "kd1_bitwriter_full_register", "kd10_prime",
             "kd2_static_encode_matches_rfc", "kd2_static_ltree_is_rfc_fixed_code", "kd7_zlib_wrapper", "kd8_quick_finish_n1",
@@ -740,7 +748,7 @@ QUICK = {
             "kd10c_symbuf_clone_to", "ki8c_window_clone_to", "kd7_gzip_start_stale_gzindex"],
     "C15": ["kd7_starved_flush_is_completed_by_the_next_call", "kd7_flush_that_fills_the_buffer_is_repeated", "ki7_inflate_primed_32_then_fast", "ki7_inflate_copyblock", "ki7_inflate_terminal", "ki5c_copyblock_resume", "ki1_bitreader_refill_model", "ki8_sync",
             "ki8_sync_then_inflate", "kd7_zlib_wrapper"],
-    "C16": ["ki8_reset_keep_forgets_the_stream", "kd7_flush_that_fills_the_buffer_is_repeated", "kd7_finish_after_prime_on_a_finished_stream", "ki8_small_entry_points", "ki8_sync", "ki8_reset_equals_fresh", "ki5a_set_dictionary", "kd10_prime", "kd10_params_tune",
+    "C16": ["kd10_get_dictionary_is_the_window_tail", "ki8_reset_keep_forgets_the_stream", "kd7_flush_that_fills_the_buffer_is_repeated", "kd7_finish_after_prime_on_a_finished_stream", "ki8_small_entry_points", "ki8_sync", "ki8_reset_equals_fresh", "ki5a_set_dictionary", "kd10_prime", "kd10_params_tune",
             "kd10_set_header", "kd10_set_dictionary_protocol", "ki7_inflate_terminal", "ki5e_terminal_modes"],
     "C18": ["ki8_copy_refuses_a_borrowed_window", "ka1_default_allocator_refuses_oversized_requests", "ka3_default_allocator_fallback_is_a_matched_pair", "ka1_alloc_shim", "ka1_alloc_overflow_and_null", "ka2_deflate_copy_alloc_failure", "ka2_deflate_end_releases_once",
             "ka2_inflate_end_releases_once"],
